@@ -108,7 +108,7 @@ func errorExit(b *ssa.BasicBlock) bool {
 // C16label: a received output label decides a result bit only by being equal to
 // one of the two labels of its wire; any other label ends the run with an error.
 func C16label(p *load.Program, run *report.Run) {
-	run.Rule("unknown-label-rejected", "wherever an output label is compared with a wire's labels (BitFromLabel, the streamer's result loop) the branch on which neither comparison holds leaves the function with a non-nil error; L0 yields 0/false and L1 yields 1/true; and every caller of BitFromLabel tests its error and leaves with an error when it is set")
+	run.Rule("unknown-label-rejected", "wherever an output label is compared with a wire's labels (BitFromLabel, the streamer's result loop, a helper of ot/circuit/compiler/ssa that takes a wire and a label) the branch on which neither comparison holds leaves the function with a non-nil error, L0 yields 0/false and L1 yields 1/true — for a function that takes a wire and a label and returns (bit, ok|error), decided by evaluating it on the three cases label = L0, label = L1, label = neither, with Label.Bytes writing into the buffer it is given; and every caller of such a function tests its error/ok and leaves with an error when it is set")
 	decider := map[*ssa.Function]int{}
 	var scan []*ssa.Function
 	required := map[*ssa.Function]bool{}
@@ -137,15 +137,46 @@ func C16label(p *load.Program, run *report.Run) {
 		if !load.InModule(fn) || fn.Blocks == nil || fn.Pkg == nil {
 			continue
 		}
-		if pp := fn.Pkg.Pkg.Path(); pp != load.Module+"/circuit" && pp != load.Module+"/compiler/ssa" {
+		if pp := fn.Pkg.Pkg.Path(); pp != load.Module+"/circuit" && pp != load.Module+"/compiler/ssa" && pp != load.Module+"/ot" {
+			continue
+		}
+		if strings.HasSuffix(p.Fset.Position(fn.Pos()).Filename, "_test.go") {
 			continue
 		}
 		scan = append(scan, fn)
 	}
 	sort.Slice(scan, func(i, j int) bool { return scan[i].Pos() < scan[j].Pos() })
+	// functions that resolve a label against a wire, however they are written: evaluated on the three cases
+	tabled := map[*ssa.Function]*deciderTable{}
+	for _, f := range scan {
+		t := labelDecider(f)
+		if !t.shape {
+			continue
+		}
+		key := fn16key(f) + "/cases"
+		switch {
+		case t.ok:
+			tabled[f] = t
+			run.Count("label-comparisons", 2)
+			run.Count("evaluated-deciders", 1)
+			run.OK("unknown-label-rejected", key, p.Rel(f.Pos()), "evaluated on a label equal to L0, to L1 and to neither: 0, 1, rejected")
+		case strings.HasPrefix(t.why, "not evaluable"):
+			// left to the comparison-chain analysis below
+		default:
+			run.Violate("unknown-label-rejected", key, p.Rel(f.Pos()), "the function resolves a label against a wire, and evaluated on the three cases "+t.why, nil)
+		}
+	}
 	for _, f := range scan {
 		key := fn16key(f)
 		chains := 0
+		if f.Pkg.Pkg.Path() == load.Module+"/ot" {
+			// package ot compares labels for its own purposes (the extension's consistency check); only its
+			// wire-resolving helpers, evaluated above, concern this rule
+			if tabled[f] != nil {
+				decider[f]++
+			}
+			continue
+		}
 		for _, b := range f.Blocks {
 			iff, ok := b.Instrs[len(b.Instrs)-1].(*ssa.If)
 			if !ok {
@@ -227,7 +258,10 @@ func C16label(p *load.Program, run *report.Run) {
 			}
 		}
 		decider[f] += chains
-		if required[f] && chains == 0 {
+		if tabled[f] != nil {
+			decider[f]++
+		}
+		if required[f] && chains == 0 && tabled[f] == nil {
 			run.Violate("unknown-label-rejected", key, p.Rel(f.Pos()), "no comparison chain of the received label that ends in an error return", nil)
 		}
 	}
@@ -245,7 +279,8 @@ func C16label(p *load.Program, run *report.Run) {
 					}
 					callee := c.Call.StaticCallee()
 					res := callee.Signature.Results()
-					if res.Len() == 0 || res.At(res.Len()-1).Type().String() != "error" {
+					boolOK := tabled[callee] != nil && tabled[callee].boolOK
+					if res.Len() == 0 || (res.At(res.Len()-1).Type().String() != "error" && !boolOK) {
 						continue
 					}
 					checkedCalls[c] = true
@@ -266,6 +301,35 @@ func C16label(p *load.Program, run *report.Run) {
 						continue
 					}
 					checked := false
+					if boolOK {
+						// `bit, ok := helper(...); if !ok { return …, err }`
+						for _, rf := range *errv.Referrers() {
+							var iff *ssa.If
+							neg := false
+							switch t := rf.(type) {
+							case *ssa.If:
+								iff = t
+							case *ssa.UnOp:
+								if t.Op == token.NOT && t.Referrers() != nil {
+									for _, r2 := range *t.Referrers() {
+										if i2, ok := r2.(*ssa.If); ok {
+											iff, neg = i2, true
+										}
+									}
+								}
+							}
+							if iff == nil {
+								continue
+							}
+							eb := iff.Block().Succs[1]
+							if neg {
+								eb = iff.Block().Succs[0]
+							}
+							if errorExit(eb) {
+								checked = true
+							}
+						}
+					}
 					for _, rf := range *errv.Referrers() {
 						bo, ok := rf.(*ssa.BinOp)
 						if !ok || (bo.Op != token.NEQ && bo.Op != token.EQL) {
